@@ -43,7 +43,8 @@ Inductive event :=
 | EActivate (u : Z)
 | EDestroy (u : Z)
 | ERestart
-| EOther.
+| EOther
+| EForeign.
 
 (* the row as the raw dump shows it: columns of tables the class does not own are printed with the model's NULL images *)
 Definition row_view (r : prow) : prow :=
@@ -76,6 +77,7 @@ Definition check_event (st : store) (e : event) : bool * store :=
   | EDestroy u => (true, step st (HDestroy u))
   | ERestart => (true, step st HRestart)
   | EOther => (true, step st HRead)
+  | EForeign => (true, step st HForeign)
   end.
 
 Fixpoint check_from (st : store) (l : list event) : bool :=
